@@ -221,11 +221,17 @@ class Gen:
           spec = rng.choice(self.classes); c.features.add('class-reuse')
         else:
           spec = self.gen_comp(depth - 1)
-        if rng.random() < 0.25:
-          n = fresh('cl'); k = 2
+        q = rng.random()
+        if q < 0.25:
+          n = fresh('cl'); k = rng.choice([2, 2, 3])
           L.append(f's.{n} = [ {spec.name}() for _ in range({k}) ]')
           insts = [f'{n}[{i}]' for i in range(k)]
           c.features.add('child-list')
+        elif q < 0.32:
+          n = fresh('cm')
+          L.append(f's.{n} = [ [ {spec.name}() for _ in range(2) ] for _ in range(2) ]')
+          insts = [f'{n}[{i}][{j}]' for i in range(2) for j in range(2)]
+          c.features.add('child-list-2d')
         else:
           n = fresh('c')
           L.append(f's.{n} = {spec.name}()')
@@ -447,12 +453,85 @@ class Gen:
     self.classes.append(c)
     return c
 
-def generate(rng, uid, maxdepth, big=False, nonpure=None):
-  """returns (module source, top CompSpec)"""
+import re as _re
+_PORT_LINE = _re.compile(r'^s\.\w+ = (InPort|OutPort|\[ InPort|\[ OutPort|C16Ifc)\b')
+
+def make_variant(rng, spec, k):
+  """a class with the port interface of `spec` and other insides (what replace_component swaps in)"""
+  v = CompSpec(f'{spec.name}_v{k}')
+  v.inports, v.outports = list(spec.inports), list(spec.outports)
+  v.signals = list(spec.inports) + list(spec.outports)
+  L = v.lines
+  L.extend(l for l in spec.lines if _PORT_LINE.match(l))
+  L += ['s.vcnt = Wire( mk_bits(2) )', '@update_ff', 'def v_cnt():', '  s.vcnt <<= s.vcnt + 1']
+  v.signals.append(('vcnt', ('b', 2)))
+  for i, (o, td) in enumerate(spec.outports):
+    cands = [e for e, t in spec.inports if t == td]
+    if cands and rng.random() < 0.8:
+      e = rng.choice(cands)
+      if rng.random() < 0.5: L += ['@update_ff', f'def v_ff{i}():', f'  s.{o} <<= s.{e}']
+      else: L += ['@update', f'def v_up{i}():', f'  s.{o} @= s.{e}']
+    elif td[0] == 'b':
+      L += ['@update_ff', f'def v_ff{i}():', f'  s.{o} <<= s.{o} + 1']
+    else:
+      L += ['@update', f'def v_up{i}():', f'  s.{o} @= {ty(td)}()']
+  v.features.add('replacement')
+  return v
+
+def _clone(spec):
+  c = CompSpec(spec.name)
+  c.__dict__.update(spec.__dict__)
+  c.children = list(spec.children)
+  return c
+
+def _instances(spec, path=()):
+  for e, ch in spec.children:
+    yield path + (e,)
+    yield from _instances(ch, path + (e,))
+
+def _replace_in_tree(top, path, new):
+  """copy-on-write replacement of the instance at `path` in the spec tree; returns the new top spec"""
+  top = _clone(top)
+  node = top
+  for d, e in enumerate(path):
+    i = next(k for k, (x, _) in enumerate(node.children) if x == e)
+    if d == len(path) - 1:
+      node.children[i] = (e, new)
+    else:
+      ch = _clone(node.children[i][1])
+      node.children[i] = (e, ch)
+      node = ch
+  return top
+
+def _get(spec, path):
+  for e in path: spec = dict(spec.children)[e]
+  return spec
+
+def generate(rng, uid, maxdepth, big=False, nonpure=None, nrep=0):
+  """returns (module source, top CompSpec after the replacements, replacements)
+     replacements = [(instance path, class name, use replace_component_with_obj)] to be applied, in order,
+     after elaborate(): child components (list elements preferred, several of one list) are swapped for
+     classes with the same ports"""
   g = Gen(rng, uid, maxdepth, big, nonpure)
   top = g.gen_comp(maxdepth)
-  src = HEADER + '\n' + '\n'.join(c.source() for c in g.classes)
-  return src, top
+  variants, reps = [], []
+  for k in range(nrep):
+    paths = list(_instances(top))
+    if not paths: break
+    lists = [p for p in paths if '[' in p[-1]]
+    if reps and rng.random() < 0.5:
+      # another element of a list that already had one element replaced
+      last = reps[-1][0]
+      sib = [p for p in lists if p[:-1] == last[:-1] and p[-1].split('[')[0] == last[-1].split('[')[0] and p != last]
+      path = rng.choice(sib) if sib else rng.choice(lists or paths)
+    else:
+      path = rng.choice(lists) if lists and rng.random() < 0.75 else rng.choice(paths)
+    v = make_variant(rng, _get(top, path), k)
+    variants.append(v)
+    top = _replace_in_tree(top, path, v)
+    reps.append((path, v.name, rng.random() < 0.4))
+  src = HEADER + '\n' + '\n'.join(c.source() for c in g.classes + variants)
+  return src, top, reps
 
 def all_signals(top):
   """every signal of every component of the design:
